@@ -790,7 +790,11 @@ impl Cred {
                 ctx.count("c08.401-received");
                 let realm = c.raw.find(wire::T_REALM);
                 let nonce = c.raw.find(wire::T_NONCE);
-                let well_formed = challenge.is_some() && realm.is_some() && nonce.is_some() && c.raw.count(wire::T_REALM) == 1 && c.raw.count(wire::T_NONCE) == 1;
+                let well_formed = challenge.is_some() && realm.is_some() && nonce.is_some() && c.raw.count(wire::T_REALM) == 1
+                    && (c.raw.count(wire::T_NONCE) == 1 || (c.raw.count(wire::T_NONCE) == 2 && challenge.map(|ch| nonce.map(|n| n.value == ch.nonce.as_bytes()).unwrap_or(false)).unwrap_or(false)));
+                if well_formed && c.raw.count(wire::T_NONCE) == 2 {
+                    ctx.count("c08.401-with-repeated-nonce");
+                }
                 let pa_on_wire = c.raw.count(wire::T_PASSWORD_ALGORITHMS) > 0;
                 let cookie_demands_pa = nonce
                     .map(|n| n.value.len() >= 13 && n.value.starts_with(b"obMatJos2") && matches!(n.value[9], b'g'..=b'z' | b'0'..=b'9' | b'+' | b'/'))
